@@ -416,6 +416,10 @@ func (reader *DataReader) next() ([]byte, *DataPos, error) {
 		// 对当前 chunk 解码
 		data, chunkType, err := DecodeChunk(reader.blockBuf[reader.offset:size])
 		if err != nil {
+			// chunk 不会跨越 block, 只有文件的最后一个 block 才可能因截断而不完整, 否则说明长度字段已损坏
+			if err == io.ErrUnexpectedEOF && off+int64(size) < fileSize {
+				err = ErrInvalidCRC
+			}
 			return nil, nil, reader.fail(pos, cnt, err)
 		}
 		// 校验 chunk 类型顺序: 记录以 Full / First 开始, 其后只能是 Middle / Last
